@@ -8,7 +8,7 @@ import numpy as np
 import z3
 
 from sx.arr import SArr
-from sx.rt import And, If, Implies, PathAbort
+from sx.rt import And, If, Implies, PathAbort, Unsupported
 
 import funtracks.import_export._tracks_builder as tb
 from funtracks.import_export._import_segmentation import relabel_segmentation
@@ -22,6 +22,9 @@ def harness(ctx, cfg):
     inp = seg.c.copy()
     for x in inp.flat:
         ctx.add(x >= 0)
+        if cfg.get("max_label") is not None:
+            # bounded-label run: lets code that leaves the modelled numpy API be followed by realisation
+            ctx.add(x <= cfg["max_label"])
     nid = [z3.Int(f"nid{i}") for i in range(M)]
     sid = [z3.Int(f"sid{i}") for i in range(M)]
     tm = [z3.Int(f"tm{i}") for i in range(M)]
@@ -48,22 +51,33 @@ def harness(ctx, cfg):
     ctx.env.update(identity_mapping=identity, via_builder=via_builder)
     g = nx.DiGraph()
     g.add_nodes_from(cn)
-    if via_builder:
-        b = object.__new__(_Builder)
-        b.ndim = 2
-        b.in_memory_geff = {"node_ids": np.array(cn), "node_props": {
-            "seg_id": {"values": np.array(cs), "missing": None},
-            "time": {"values": np.array(ct), "missing": None}}}
-        old = tb.load_segmentation
-        tb.load_segmentation = lambda s: s  # the array is already in memory (no dask wrapping of a model)
-        try:
-            out, scale = b.handle_segmentation(g, seg, None)
-        finally:
-            tb.load_segmentation = old
-        ctx.tag("shortcut" if identity else "relabelled")
-    else:
-        out = relabel_segmentation(seg, g, np.array(cn), np.array(cs), np.array(ct))
-        ctx.tag("relabelled")
+    try:
+        if via_builder:
+            b = object.__new__(_Builder)
+            b.ndim = 2
+            b.in_memory_geff = {"node_ids": np.array(cn), "node_props": {
+                "seg_id": {"values": np.array(cs), "missing": None},
+                "time": {"values": np.array(ct), "missing": None}}}
+            old = tb.load_segmentation
+            tb.load_segmentation = lambda s: s  # the array is already in memory (no dask wrapping of a model)
+            try:
+                out, scale = b.handle_segmentation(g, seg, None)
+            finally:
+                tb.load_segmentation = old
+            ctx.tag("shortcut" if identity else "relabelled")
+        else:
+            out = relabel_segmentation(seg, g, np.array(cn), np.array(cs), np.array(ct))
+            ctx.tag("relabelled")
+    except Unsupported:
+        raise
+    except Exception as e:
+        ctx.tag(f"raised:{type(e).__name__}")
+        ctx.oblige("C13.returns_without_error", False, "C13")
+        return
+    if isinstance(out, np.ndarray):
+        from sx.arr import _as_sarr
+
+        out = _as_sarr(out)
     shift = 1 if 0 in cn else 0
     if via_builder and identity:
         shift = 0
@@ -96,16 +110,19 @@ def replay(f):
     before = arr.copy()
     g = nx.DiGraph()
     g.add_nodes_from(cn)
-    if inp["via_builder"]:
-        b = object.__new__(_Builder)
-        b.ndim = 2
-        b.in_memory_geff = {"node_ids": np.array(cn), "node_props": {
-            "seg_id": {"values": np.array(cs), "missing": None},
-            "time": {"values": np.array(ct), "missing": None}}}
-        out, _ = b.handle_segmentation(g, arr, None)
-        out = np.asarray(out)
-    else:
-        out = relabel_segmentation(arr, g, np.array(cn), np.array(cs), np.array(ct))
+    try:
+        if inp["via_builder"]:
+            b = object.__new__(_Builder)
+            b.ndim = 2
+            b.in_memory_geff = {"node_ids": np.array(cn), "node_props": {
+                "seg_id": {"values": np.array(cs), "missing": None},
+                "time": {"values": np.array(ct), "missing": None}}}
+            out, _ = b.handle_segmentation(g, arr, None)
+            out = np.asarray(out)
+        else:
+            out = relabel_segmentation(arr, g, np.array(cn), np.array(cs), np.array(ct))
+    except Exception as e:
+        return f["obligation"] == "C13.returns_without_error", f"nodes={cn} seg_ids={cs} times={ct} raised {type(e).__name__}: {e}"
     shift = 1 if 0 in cn else 0
     if sorted(g.nodes) != sorted(c + shift for c in cn):
         # graph was not shifted: then the array must not be shifted either
